@@ -727,6 +727,8 @@ func ConnRaceAccept(args []string) {
 	thruserv := fs.String("thruserv", "", "thruserv binary")
 	thru := fs.String("thru", "", "thru binary (built with -tags verif)")
 	max := fs.Int("max", 0, "at most this many scripts per shard (0 = all)")
+	withTurn := fs.Bool("turn", false, "the receiver has a TURN allocation (a second, relay listener): thruserv mints credentials for an in-sandbox TURN server")
+	loserFirst := fs.Bool("loser-first", false, "only the scripts in which the first connection the listener sees is one the sender abandons")
 	fs.Parse(args)
 	g, err := graph.Load(*edges)
 	if err != nil {
@@ -734,7 +736,18 @@ func ConnRaceAccept(args []string) {
 		os.Exit(3)
 	}
 	g.Index()
-	srv, err := startServer(*thruserv, nil, unlimited...)
+	srvFlags := append([]string{}, unlimited...)
+	if *withTurn {
+		const secret = "static-auth-secret-for-tests"
+		ts, terr := startTurnServer(secret)
+		if terr != nil {
+			fmt.Fprintln(os.Stderr, terr)
+			os.Exit(3)
+		}
+		defer ts.stop()
+		srvFlags = append(srvFlags, "--turn-server", "turn:"+ts.addr, "--turn-static-auth-secret", secret)
+	}
+	srv, err := startServer(*thruserv, nil, srvFlags...)
 	if err != nil {
 		fmt.Fprintln(os.Stderr, err)
 		os.Exit(3)
@@ -762,6 +775,18 @@ func ConnRaceAccept(args []string) {
 			}
 		}
 		sc := acceptScript{Events: evs, Winner: x.Ret}
+		if *loserFirst {
+			first := 0
+			for _, ev := range evs {
+				if strings.HasPrefix(ev, "done:") {
+					fmt.Sscanf(ev, "done:%d", &first)
+					break
+				}
+			}
+			if first == 0 || first == x.Ret {
+				continue
+			}
+		}
 		key := fmt.Sprint(sc)
 		if seen[key] {
 			continue
